@@ -194,14 +194,22 @@ def infinity_cases(ctx, cname, per, seed):
     ctx.sample({"curve": cname, "note": "digest e = -r*d/2 mod n: second candidate key is the point at infinity"})
 
 
+def SU_olen(n):
+    return (n.bit_length() + 7) // 8
+
+
 def st_named(names):
     def mk(cname, di, ki, u1, u2, hname, entry, payload, at, decn, pre=None):
         n = gen.dom(cname).n
         bs = gen.boundary_scalars(n)
         dd = bs[di % len(bs)] if di >= 0 else 1 + u1 % (n - 1)
         k = bs[ki % len(bs)] if ki >= 0 else 1 + u2 % (n - 1)
+        if u2 % 5 == 0:
+            hname = gen.exact_hash_name(n)        # hash output exactly as long as the order (in octets)
         if entry == "digest" and not payload:
             payload = b"\x05"
+        if entry == "digest" and u1 % 7 == 0:
+            payload = (payload * (1 + SU_olen(n)))[: SU_olen(n)]      # digest exactly as long as the order
         if entry == "digest" and not at and 8 * len(payload) > n.bit_length():
             payload = payload[: max(1, n.bit_length() // 8)]
         if entry == "data" and not at and 8 * gen.HASHES[hname]().digest_size > n.bit_length():
